@@ -75,12 +75,12 @@ func (*engine) StatisticalReplay() bool { return degraded() }
 func (*engine) Plan(tier string) int64 {
 	if raceBuild {
 		if tier == "thorough" {
-			return 150000
+			return 100000
 		}
 		return 5000
 	}
 	if tier == "thorough" {
-		return 1500000
+		return 1000000
 	}
 	return 50000
 }
@@ -417,7 +417,7 @@ func (sc *scenario) publish(ref [][]opResult) int {
 				if len(fresh) >= 3 {
 					break
 				}
-				if g.IsEmpty() || g.DumpCoordinates().Length() > 80 || g.Validate() != nil {
+				if g.IsEmpty() || g.DumpCoordinates().Length() > 80 || g.Validate() != nil || !p.inDomain(g) {
 					continue
 				}
 				d := digestOf(g)
